@@ -493,15 +493,22 @@ func (b *BasicWorldBuilder) Finish(o *BuildOptions) (b6.World, error) {
 		cores = 1
 	}
 	for _, feed := range stages {
-		toValidate := make(chan Feature, cores)
-		wg.Add(cores)
-		for i := 0; i < cores; i++ {
-			go validate(toValidate)
-		}
-		feed(toValidate, b.features)
-		close(toValidate)
-		wg.Wait()
-		if len(broken) > 0 {
+		// Deleting an invalid feature can invalidate the features that
+		// reference it (eg an area over a deleted path), so validate until
+		// nothing more is broken.
+		for {
+			broken = broken[0:0]
+			toValidate := make(chan Feature, cores)
+			wg.Add(cores)
+			for i := 0; i < cores; i++ {
+				go validate(toValidate)
+			}
+			feed(toValidate, b.features)
+			close(toValidate)
+			wg.Wait()
+			if len(broken) == 0 {
+				break
+			}
 			if o.FailInvalidFeatures {
 				return nil, broken
 			}
